@@ -57,20 +57,28 @@ theorem smallK_ne (tol : K) (htol : 0 < tol) (a : K) (h : smallK tol a = false) 
 
 variable (A : Vector (Vector K n) n) (b : Vector K n) (sqrt : K → K) (tol normb : K)
 
+/-- `v[i] / a`, as the C++ computes the basis vectors -/
+def vsdiv (v : Vector K n) (a : K) : Vector K n := v.map (· / a)
+
+omit [LinearOrder K] [IsStrictOrderedRing K] in
+theorem toFn_vsdiv (v : Vector K n) (a : K) : toFn (vsdiv v a) = (1 / a) • toFn v := by
+  funext i
+  simp only [vsdiv, toFn, Fin.getElem_fin, Vector.getElem_map, Pi.smul_apply, smul_eq_mul]
+  ring
+
 /-- the states of the Arnoldi loop of the model on `Vector K n` -/
 def arnVec (k : Nat) : ArnSt K (Vector K n) :=
-  iter (arnStep (vecOps (fun a => a) A A) sqrt (smallK tol) n b) k
-    ⟨[(vecOps (fun a => a) A A).smul (1 / normb) b], [], false, n⟩
+  iter (arnStep (vecOps (fun a => a) A A) vsdiv sqrt (smallK tol) n b) k ⟨[vsdiv b normb], [], false, n⟩
 
 theorem arnVec_map (k : Nat) : mapArn toFn (arnVec A b sqrt tol normb k) =
     arnSeq (linOf A) (linOf (vctrans (fun a => a) A)) (linOf A) (dotForm K n) sqrt (smallK tol) n (toFn b) normb k := by
-  have hit := iter_hom (arnStep (vecOps (fun a => a) A A) sqrt (smallK tol) n b)
-    (arnStep (modOps A A) sqrt (smallK tol) n (toFn b)) (mapArn toFn)
-    (arnStep_hom toFn _ _ (opsHom_vec A A) sqrt (smallK tol) n b) k
-    ⟨[(vecOps (fun a => a) A A).smul (1 / normb) b], [], false, n⟩
+  have hit := iter_hom (arnStep (vecOps (fun a => a) A A) vsdiv sqrt (smallK tol) n b)
+    (arnStep (modOps A A) (fun v a => (1 / a) • v) sqrt (smallK tol) n (toFn b)) (mapArn toFn)
+    (arnStep_hom toFn _ _ (opsHom_vec A A) vsdiv (fun v a => (1 / a) • v) toFn_vsdiv sqrt (smallK tol) n b) k
+    ⟨[vsdiv b normb], [], false, n⟩
   unfold arnVec
   rw [hit]
-  simp only [mapArn, List.map_cons, List.map_nil, (opsHom_vec A A).smul]
+  simp only [mapArn, List.map_cons, List.map_nil, toFn_vsdiv]
   rfl
 
 variable (hsq : ∀ a, 0 ≤ a → sqrt a * sqrt a = a) (hsq0 : ∀ a, 0 ≤ sqrt a) (htol : 0 < tol)
@@ -80,8 +88,8 @@ include hsq hsq0 htol in
 theorem dgCore_vec_solves (hn : 1 ≤ n) (hb : vdot (fun a => a) b b = normb * normb) (hnb0 : normb ≠ 0)
     (hnb : ∀ k, k + 1 < n → (arnVec A b sqrt tol normb (k + 1)).stop = false)
     (hdiag : ∀ i, i < n → smallK tol |hent (sweepOf sqrt n n normb (arnVec A b sqrt tol normb n).cols).1 i i| = false) :
-    linOf A (toFn (dgCore (vecOps (fun a => a) A A) sqrt (fun a => |a|) (smallK tol) isZ n n b normb)) = toFn b := by
-  rw [dgCore_hom toFn _ _ (opsHom_vec A A)]
+    linOf A (toFn (dgCore (vecOps (fun a => a) A A) vsdiv sqrt (fun a => |a|) (smallK tol) isZ n n b normb)) = toFn b := by
+  rw [dgCore_hom toFn _ _ (opsHom_vec A A) vsdiv (fun v a => (1 / a) • v) toFn_vsdiv]
   have hb' : (dotForm K n).a (toFn b) (toFn b) = normb * normb := by
     rw [← hb]; exact (vdot_eq b b).symm
   have hnb' : ∀ k, k + 1 < n → (arnSeq (linOf A) (linOf (vctrans (fun a => a) A)) (linOf A) (dotForm K n) sqrt
@@ -216,7 +224,7 @@ theorem denseGmres_solves (maxiter : Nat) (pc : Bool) (hn : 1 ≤ n) (hmax : max
       rw [vdot_eq]; exact Finset.sum_nonneg (fun i _ => mul_self_nonneg _)
     have hcore := dgCore_vec_solves Ab.1 Ab.2 sqrt tol (sqrt (vdot (fun a => a) Ab.2 Ab.2)) hsq hsq0 htol hn
       (hsq _ hnn).symm (smallK_ne tol htol _ hnorm') hnb' hdiag'
-    have hsys : linOf Ab.1 (toFn (dgCore (vecOps (fun a => a) Ab.1 Ab.1) sqrt (fun a => |a|) (smallK tol) isZ n n
+    have hsys : linOf Ab.1 (toFn (dgCore (vecOps (fun a => a) Ab.1 Ab.1) vsdiv sqrt (fun a => |a|) (smallK tol) isZ n n
         Ab.2 (sqrt (vdot (fun a => a) Ab.2 Ab.2)))) = toFn Ab.2 := hcore
     cases pc with
     | false =>
